@@ -416,7 +416,15 @@ func fnHello(ctx *cmdContext, args map[string]any) (output respValue, err error)
 	if hasArgs {
 		ver, hasVer := helloArgs.mustGet("protover").(int64)
 		if hasVer {
+			if ver != 2 && ver != 3 {
+				// nothing changes on the connection
+				output.data = respErrorString("NOPROTO unsupported protocol version")
+				return
+			}
 			ctx.cs.respVersion = int(ver)
+		}
+		if name, hasName := helloArgs.mustGet("clientname").(string); hasName {
+			ctx.cs.name = name
 		}
 	}
 
